@@ -419,7 +419,8 @@ class WorkerPool:
         with self._lock:
             self._active -= 1
 
-            if self._closed:
+            if self._closed or self._max_idle == 0:
+                # Nothing may be kept: the pool is closed, or max_idle=0 asks for no idle workers.
                 self._discards += 1
                 transport.close()
                 return
